@@ -70,14 +70,14 @@ def r1_funnel(run, w):
     if q in NON_EMITTING_FUNCS or fn.fi.module.name in NON_EMITTING_MODULES:
       continue
     fv = H.View(fn)
-    gw = [c for (n, c, nm) in fn.calls() if E.is_gateway_call(c, nm, fn) and c.args and
-          any(x is call for x in ast.walk(fv.res(c.args[0])))]
+    gw = [c for (n, c, nm) in fn.calls() if E.is_gateway_call(c, nm, fn) and
+          fv.arg(c, 0) is not None and any(x is call for x in ast.walk(fv.res(fv.arg(c, 0))))]
     run.ob(R1, q, short(call), "a rename action constructed outside DocActions is handed straight "
            "to the gateway (no side channel)", bool(gw), fi=fn.fi, node=call)
     if gw:
       sites[q] = H.xfn(w, q, keep=KEEP)
   schema = H.python_schema(w)
-  overrides = {f.qualname: key for key, f in w.override_methods().items()}
+  overrides = {f.qualname: key for key, f in H.override_methods(w).items()}
   for q in sorted(sites):
     fn = sites[q]
     site = H.RenameSite(fn, RENAME_ACTIONS)
@@ -292,9 +292,10 @@ def _merge(run, w, R1, fn, site, prep_node, prep_call, overrides, schema):
   for (n, c, nm) in fn.calls():
     if not endswith(nm, "self.doBulkUpdateFromPairs"):
       continue
-    b = H.bind_args(c, ("table_id", "record_values_pairs"))
-    if b is None or len(b) != 2:
+    a_table, a_pairs = v.arg(c, 0), v.arg(c, 1)
+    if a_table is None or a_pairs is None:
       continue
+    b = {"table_id": a_table, "record_values_pairs": a_pairs}
     t = v.res(b["table_id"])
     table_ok = (isinstance(t, ast.Constant) and t.value == FORMULA_TABLE) or \
         (isinstance(t, ast.Name) and len(ps) > 1 and t.id == ps[1] and key is not None and
@@ -392,10 +393,12 @@ def r2_registries(run, w):
   def sorted_lookup_kwargs(fi):
     """keyword names a prevnext function forwards to _sorted_lookup from its own parameters"""
     out = set()
+    sl = pn.functions.get("_sorted_lookup")
+    positional = set(sl.params()) if sl is not None else set()
     for c in calls_in(fi.node.body):
       if dotted(c.func) == "_sorted_lookup":
         for k in c.keywords:
-          if k.arg is not None:
+          if k.arg is not None and k.arg not in positional:
             out.add(k.arg)
     return out
   for name in reg:
